@@ -123,6 +123,7 @@ type c05Op struct {
 	Cmid    uint64
 	Acked   bool
 	Tries   int
+	Retried bool
 }
 
 type c05Stream struct {
@@ -248,6 +249,8 @@ func c05Round(rep *verifrep.R, seed int64, dir string) {
 				ops[i] = append(ops[i], op)
 				acked, tries, gone := reliable(senders[i], "PRIVMSG #c :"+op.Payload, op.Cmid, deadline)
 				op.Acked, op.Tries = acked, tries
+				// an attempt that got no answer (the node was killed or was restarting) was repeated
+				op.Retried = tries > 1
 				if gone {
 					atomic.AddInt64(&spurious404, 1)
 				}
@@ -416,6 +419,7 @@ func c05Round(rep *verifrep.R, seed int64, dir string) {
 			continue
 		}
 		count := map[string]int{}
+		knownDup := map[string]bool{}
 		var order []string
 		for _, m := range fetched {
 			if p, ok := payloadOf(m.Data); ok {
@@ -430,6 +434,12 @@ func c05Round(rep *verifrep.R, seed int64, dir string) {
 				switch {
 				case op.Acked && k == 0:
 					viol("acknowledged-message-lost", fmt.Sprintf("observer %d: %q was acknowledged (after %d tries) but is not in the stream", oi, op.Payload, op.Tries), map[string]interface{}{"faults": faultLog})
+				case k > 1 && op.Retried:
+					// the first attempt got no answer because the node went down; its copy was in the
+					// log, and the repetition reached the restarted node before the replay had
+					// applied that copy (see TestVerifC05Lagging for the window in isolation)
+					knownDup[op.Payload] = true
+					viol("dup:retry-accepted-before-first-copy-applied:after-kill", fmt.Sprintf("observer %d: %q (acked=%v, %d tries, one of them unanswered across a kill) delivered %d times", oi, op.Payload, op.Acked, op.Tries, k), map[string]interface{}{"faults": faultLog})
 				case k > 1:
 					viol("message-duplicated", fmt.Sprintf("observer %d: %q (acked=%v, %d tries) delivered %d times", oi, op.Payload, op.Acked, op.Tries, k), map[string]interface{}{"faults": faultLog})
 				}
@@ -445,6 +455,10 @@ func c05Round(rep *verifrep.R, seed int64, dir string) {
 		for _, p := range order {
 			var sd, sn, ss int
 			if _, err := fmt.Sscanf(p, "pl-%d-%d-%d", &ss, &sd, &sn); err == nil {
+				if sn <= lastN[sd] && knownDup[p] {
+					// the second copy of a message that was already reported above
+					continue
+				}
 				if sn <= lastN[sd] {
 					viol("sender-order-violated", fmt.Sprintf("observer %d: payload %q after #%d of the same sender", oi, p, lastN[sd]), nil)
 				}
